@@ -22,6 +22,7 @@ RULE = ("Engine 'function': Hypothesis draws an image pair (correlated / identic
 TOLERANCES = {"shell value": "2e-4 (float32 FFT)", "range": "1e-4"}
 ASSUMPTIONS = ["shells whose RMS amplitude is below 2e-3 of the largest Fourier coefficient are skipped (single-precision noise floor)",
                "shell membership of bins lying within 1e-7 (relative) of a shell boundary is not asserted"]
+RULE += (" " + "Also: LoaderGroup.fsc with a mask given as an ImageConverter (made from each group's average).")
 
 
 def make_pair(d):
